@@ -2,7 +2,7 @@
 // checker, scanner and printer.
 //
 // Op line:   <text-hex|-> [alt=<text-hex|->]      (alt: a second rendering of the same choices)
-// Output:    C <count> W <written> R <rd>/<len> V <cell>* P <text2-hex|-> C2 <count2> W2 <written2> R2 <rd2>/<len2> V2 <cell>* E <eq>
+// Output:    C <count> W <written> R <rd>/<len> V <cell>* P <text2-hex|-> C2 <count2> W2 <written2> R2 <rd2>/<len2> V2 <cell>*
 //   count    rtosc_count_printed_arg_vals(text)
 //   written  number of rtosc_arg_val_t the scanner wrote when asked for `count` values: the cell
 //            block has exactly `count` cells followed by nothing (a scanner that writes more is
@@ -10,7 +10,6 @@
 //   rd/len   bytes consumed by rtosc_scan_arg_vals / strlen(text)
 //   V        the cells, as in harness/pretty.cpp (floats as bit patterns)
 //   P        rtosc_print_arg_vals(cells, default options), then the same on the printed text
-//   E        rtosc_arg_vals_eq(cells, cells2)
 // After `C <count>` with count < 0 (syntax error reported) the group ends there.
 // With alt=: ` | A C <count> W <written> R <rd>/<len> V <cell>*` for the second text is appended.
 #include "common.h"
@@ -95,7 +94,6 @@ static std::string step(const std::string &line) {
     Exact mem2(tb);
     Scanned s2;
     if (!count_scan(mem2.c(), s2, o, "2")) return o.str();
-    o << " E " << rtosc_arg_vals_eq(s1.cells, s2.cells, (size_t)s1.count, (size_t)s2.count, NULL);
     return o.str();
 }
 
